@@ -6,7 +6,8 @@
 (*                                                                         *)
 (*   [p, q, checks : sequence of                                           *)
 (*      [t  : the numeral (code points),                                   *)
-(*       bs : the bases it may be read in,                                 *)
+(*       bs : the bases it may be read in (the engine passes the reply's   *)
+(*            base only: fractions are numerals of the reply's base too),  *)
 (*       r  : "exact"   the numeral was marked exact                       *)
 (*            "approx"  it was marked approximate                          *)
 (*            "strict"  it is shown behind `approx.`: a truncation that is *)
@@ -23,6 +24,8 @@
 (*         "approx-on-exact" shown behind `approx.` although exact         *)
 (*         "period"          stated period is not the length of the block  *)
 (*         "no-numeral"      neither an exact nor an approximate numeral   *)
+(*         "not-in-base"     a well-formed numeral with digits the reply's *)
+(*                           base does not have                            *)
 (* (short words: TLC wraps long printed tuples over several lines)         *)
 (* UNSUPPORTED l c : the numeral is outside the grammar of Numeral.tla.    *)
 (* CRASH l : the formatter panicked or hung.                               *)
@@ -41,7 +44,9 @@ CheckOne(ck, v0, i, c) ==
   IF ck.r = "present"
   THEN (IF ck.e \/ ck.a THEN TRUE ELSE PrintT(<<"REJECT", i, c, "no-numeral">>))
   ELSE \E v \in {IF "v" \in DOMAIN ck THEN Q(ck.v.n, ck.v.d) ELSE v0} :
-       IF ~SomeBase(ck, LAMBDA b : Supported(ck.t, b)) THEN PrintT(<<"UNSUPPORTED", i, c>>)
+       IF ~SomeBase(ck, LAMBDA b : Supported(ck.t, b))
+       THEN (IF \A j \in DOMAIN ck.bs : WrongBase(ck.t, ck.bs[j]) THEN PrintT(<<"REJECT", i, c, "not-in-base">>)
+             ELSE PrintT(<<"UNSUPPORTED", i, c>>))
        ELSE IF ~(\A j \in DOMAIN ck.bs : PeriodOK(ck.t, ck.bs[j])) THEN PrintT(<<"REJECT", i, c, "period">>)
        ELSE CASE ck.r = "exact" ->
                    IF SomeBase(ck, LAMBDA b : ExactOK(v, ck.t, b)) THEN TRUE ELSE PrintT(<<"REJECT", i, c, "exact-wrong">>)
